@@ -2934,10 +2934,8 @@ CALSCALE:GREGORIAN\n";
 		if (UNLIKELY(i.t == NULL)) {
 			break;
 		}
-		/* use specifics in T to declare defaults */
-		if (i.t->max_simul) {
-			fdprintf("X-ECHS-MAX-SIMUL:%d\n", i.t->max_simul);
-		}
+		/* use specifics in T to declare defaults
+		 * (the owner only, limits are a per-task matter) */
 		with (nummapstr_t o = i.t->owner) {
 			const char *p;
 			uintptr_t n;
